@@ -73,7 +73,9 @@ use crate::dp::{rand_bigint::UniformBigUint, Rational};
 /// [CKS20]: https://arxiv.org/pdf/2004.00010.pdf
 fn sample_bernoulli<R: Rng + ?Sized>(gamma: &Ratio<BigUint>, rng: &mut R) -> bool {
     #[cfg(feature = "verif-hooks")]
-    if let Some(verif::Answer::Bool(answer)) = verif::intercept(verif::Call::Bernoulli(gamma.clone())) {
+    if let Some(verif::Answer::Bool(answer)) =
+        verif::intercept(verif::Call::Bernoulli(gamma.clone()))
+    {
         return answer;
     }
     let d = gamma.denom();
@@ -99,7 +101,9 @@ fn sample_bernoulli<R: Rng + ?Sized>(gamma: &Ratio<BigUint>, rng: &mut R) -> boo
 /// [CKS20]: https://arxiv.org/pdf/2004.00010.pdf
 fn sample_bernoulli_exp1<R: Rng + ?Sized>(gamma: &Ratio<BigUint>, rng: &mut R) -> bool {
     #[cfg(feature = "verif-hooks")]
-    if let Some(verif::Answer::Bool(answer)) = verif::intercept(verif::Call::BernoulliExp1(gamma.clone())) {
+    if let Some(verif::Answer::Bool(answer)) =
+        verif::intercept(verif::Call::BernoulliExp1(gamma.clone()))
+    {
         return answer;
     }
     assert!(!gamma.denom().is_zero());
@@ -124,7 +128,9 @@ fn sample_bernoulli_exp1<R: Rng + ?Sized>(gamma: &Ratio<BigUint>, rng: &mut R) -
 /// [CKS20]: https://arxiv.org/pdf/2004.00010.pdf
 fn sample_bernoulli_exp<R: Rng + ?Sized>(gamma: &Ratio<BigUint>, rng: &mut R) -> bool {
     #[cfg(feature = "verif-hooks")]
-    if let Some(verif::Answer::Bool(answer)) = verif::intercept(verif::Call::BernoulliExp(gamma.clone())) {
+    if let Some(verif::Answer::Bool(answer)) =
+        verif::intercept(verif::Call::BernoulliExp(gamma.clone()))
+    {
         return answer;
     }
     assert!(!gamma.denom().is_zero());
@@ -145,7 +151,9 @@ fn sample_bernoulli_exp<R: Rng + ?Sized>(gamma: &Ratio<BigUint>, rng: &mut R) ->
 /// [CKS20]: https://arxiv.org/pdf/2004.00010.pdf
 fn sample_geometric_exp<R: Rng + ?Sized>(gamma: &Ratio<BigUint>, rng: &mut R) -> BigUint {
     #[cfg(feature = "verif-hooks")]
-    if let Some(verif::Answer::Nat(answer)) = verif::intercept(verif::Call::GeometricExp(gamma.clone())) {
+    if let Some(verif::Answer::Nat(answer)) =
+        verif::intercept(verif::Call::GeometricExp(gamma.clone()))
+    {
         return answer;
     }
     let (s, t) = (gamma.numer(), gamma.denom());
@@ -185,7 +193,8 @@ fn sample_geometric_exp<R: Rng + ?Sized>(gamma: &Ratio<BigUint>, rng: &mut R) ->
 /// [CKS20]: https://arxiv.org/pdf/2004.00010.pdf
 fn sample_discrete_laplace<R: Rng + ?Sized>(scale: &Ratio<BigUint>, rng: &mut R) -> BigInt {
     #[cfg(feature = "verif-hooks")]
-    if let Some(verif::Answer::Int(answer)) = verif::intercept(verif::Call::Laplace(scale.clone())) {
+    if let Some(verif::Answer::Int(answer)) = verif::intercept(verif::Call::Laplace(scale.clone()))
+    {
         return answer;
     }
     let (s, t) = (scale.numer(), scale.denom());
@@ -214,7 +223,8 @@ fn sample_discrete_laplace<R: Rng + ?Sized>(scale: &Ratio<BigUint>, rng: &mut R)
 /// [CKS20]: https://arxiv.org/pdf/2004.00010.pdf
 fn sample_discrete_gaussian<R: Rng + ?Sized>(sigma: &Ratio<BigUint>, rng: &mut R) -> BigInt {
     #[cfg(feature = "verif-hooks")]
-    if let Some(verif::Answer::Int(answer)) = verif::intercept(verif::Call::Gaussian(sigma.clone())) {
+    if let Some(verif::Answer::Int(answer)) = verif::intercept(verif::Call::Gaussian(sigma.clone()))
+    {
         return answer;
     }
     assert!(!sigma.denom().is_zero());
@@ -486,12 +496,22 @@ pub mod verif {
         sample_discrete_gaussian(sigma, rng)
     }
     /// Calls the private uniform layer `UniformBigUint::new(low, high).sample(rng)`.
-    pub fn call_uniform<R: Rng + ?Sized>(low: &BigUint, high: &BigUint, rng: &mut R) -> Option<BigUint> {
+    pub fn call_uniform<R: Rng + ?Sized>(
+        low: &BigUint,
+        high: &BigUint,
+        rng: &mut R,
+    ) -> Option<BigUint> {
         UniformBigUint::new(low, high).ok().map(|u| u.sample(rng))
     }
     /// Calls the private uniform layer `UniformBigUint::new_inclusive(low, high).sample(rng)`.
-    pub fn call_uniform_inclusive<R: Rng + ?Sized>(low: &BigUint, high: &BigUint, rng: &mut R) -> Option<BigUint> {
-        UniformBigUint::new_inclusive(low, high).ok().map(|u| u.sample(rng))
+    pub fn call_uniform_inclusive<R: Rng + ?Sized>(
+        low: &BigUint,
+        high: &BigUint,
+        rng: &mut R,
+    ) -> Option<BigUint> {
+        UniformBigUint::new_inclusive(low, high)
+            .ok()
+            .map(|u| u.sample(rng))
     }
     /// The rational inside a [`Rational`].
     pub fn rational_inner(r: &Rational) -> Ratio<BigUint> {
